@@ -1,11 +1,12 @@
 (* Extraction of the executable models to OCaml.  ExtrOcamlBasic only; no Extract Constant /
    Extract Inductive of our own: nat, N, Z, positive, ascii stay the extracted inductives. *)
 Require Import ExtrOcamlBasic.
-Require Import Bytes Base64Model Rfc4648 NumParse Restartable TablesGen ParserModel ParserInst.
+Require Import Bytes Base64Model Rfc4648 NumParse Restartable TablesGen ParserModel ParserInst RouterModel.
 Extraction "model.ml"
   Bytes.n2b Bytes.b2n
   Base64Model.encode Base64Model.decode Base64Model.set_basic Base64Model.get_basic
   Rfc4648.rfc4648
   ParserModel.feed ParserModel.feed_raw ParserModel.pstate_init ParserModel.cl_value ParserModel.te_is_chunked
   ParserModel.typed_get ParserModel.id_content_length ParserModel.id_transfer_encoding
-  ParserInst.parse_inst ParserInst.reg_name Bytes.lower_bytes.
+  ParserInst.parse_inst ParserInst.reg_name Bytes.lower_bytes
+  RouterModel.add_route RouterModel.remove_route RouterModel.route.
